@@ -7,7 +7,8 @@ CFG = dict(
           "the model with the single serve loop as a resource that can be busy (inside forwardRpc / inside the user's disconnect callback) (and C17_no_crash_refuted_before_D17d: the code before the D-17d repair could crash) in coq/Props/C17.v over all "
           "label sequences of the small-step model coq/Model/Proxy.v; the model is run lock-step against the real goat.Proxy on every run.",
     props="Props/C17.v",
-    theorems=["C17_source", "C17_no_crash", "C17_no_crash_refuted_before_D17d", "C17_isolation", "C17_live_traffic",
+    theorems=["C17_source", "C17_no_crash", "C17_no_crash_refuted_before_D17d", "C17_no_crash_refuted_without_header_guard",
+              "C17_forward_total", "C17_isolation", "C17_live_traffic",
               "C17_remove_step", "C17_remove", "C17_errors_reported", "C17_shutdown", "C17_shutdown_terminates",
               "C17_errors_reported_run", "C17_held_refines", "C17_forward_completes", "C17_held_nothing_forwarded",
               "C17_held_loop_no_loss"],
